@@ -691,19 +691,32 @@ sqf::runtime::runtime::result sqf::runtime::runtime::execute(sqf::runtime::runti
 
 ::sqf::runtime::value sqf::runtime::runtime::evaluate_expression(std::string view, bool& success, bool request_halt)
 {
-#ifdef SQFVM_RUNTIME_VERIF
-    while (m_evaluate_halt) { SQFVM_VERIF_POINT("spin:eval.wait_halt_free"); }
-#endif
-    while (m_evaluate_halt);
+    // One evaluation at a time: take the evaluation slot.
+    bool expected = false;
+    while (!m_evaluate_halt.compare_exchange_strong(expected, true))
+    {
+        expected = false;
+        SQFVM_VERIF_POINT("spin:eval.wait_halt_free");
+    }
     SQFVM_VERIF_POINT("eval.set_halt");
-    m_evaluate_halt = true;
+    // The expression runs on this thread, so no other thread may execute meanwhile: either an executor
+    // has parked itself in perform_evaluate (state evaluating), or there is none and this thread takes
+    // the executor's place for the duration of the evaluation.
+    bool owns_run = false;
     if (request_halt)
     {
-#ifdef SQFVM_RUNTIME_VERIF
-        while (m_state == state::running) { SQFVM_VERIF_POINT("spin:eval.wait_not_running"); }
-#endif
-        while (m_state == state::running);
+        while (true)
+        {
+            SQFVM_VERIF_POINT("spin:eval.wait_not_running");
+            if (m_state == state::evaluating) { break; }
+            expected = false;
+            if (m_run_atomic.compare_exchange_strong(expected, true)) { owns_run = true; break; }
+        }
     }
+    auto finish = [&]() {
+        if (owns_run) { m_run_atomic = false; }
+        m_evaluate_halt = false;
+    };
     auto& sqf_parser = parser_sqf();
     auto opt_set = sqf_parser.parse(*this, view, { std::string("__evaluate_expression__.sqf"), {} });
     if (opt_set.has_value())
@@ -713,49 +726,42 @@ sqf::runtime::runtime::result sqf::runtime::runtime::execute(sqf::runtime::runti
         eval_context->push_frame(f);
         auto old_active = context_active_as_shared();
         m_context_active = eval_context;
+        // execute_do only runs in state running; whatever the state is (empty, halted, evaluating), it is
+        // restored once the expression is done
+        state oldstate = m_state;
+        bool old_error = m_runtime_error;
+        bool failed = false;
+        m_runtime_error = false;
         try
         {
             while (!eval_context->empty())
             {
-                state oldstate = m_state;
-                if (m_state == runtime::state::empty)
-                {
-                    m_state = runtime::state::running;
-                }
-                execute_do(*this, 1);
-                m_state = oldstate;
+                m_state = runtime::state::running;
+                auto res = execute_do(*this, 1);
+                if (res == result::runtime_error || m_runtime_error) { failed = true; break; }
+                if (res != result::ok || m_is_exit_requested) { break; }
             }
         }
-        catch (const std::exception& ex)
+        catch (const std::exception&)
         {
-            m_evaluate_halt = false;
+            failed = true;
         }
+        if (!eval_context->empty()) { failed = true; } // cut short (stop / abort request)
+        m_runtime_error = old_error;
+        auto val = failed ? std::optional<value>() : eval_context->pop_value(true);
+        // the evaluation context is done with: whatever is left of it must not be scheduled
+        eval_context->clear_frames();
+        auto found = std::find(m_contexts.begin(), m_contexts.end(), eval_context);
+        if (found != m_contexts.end()) { m_contexts.erase(found); }
         m_context_active = old_active;
-        if (m_runtime_error)
-        {
-            m_evaluate_halt = false;
-            m_runtime_error = false;
-            success = false;
-            return {};
-        }
-        else
-        {
-            auto val = eval_context->pop_value(true);
-            m_evaluate_halt = false;
-            success = true;
-            if (val.has_value())
-            {
-                return val.value();
-            }
-            else
-            {
-                return {};
-            }
-        }
+        m_state = oldstate;
+        finish();
+        success = !failed;
+        return val.has_value() ? val.value() : value{};
     }
     else
     {
-        m_evaluate_halt = false;
+        finish();
         success = false;
         return {};
     }
